@@ -26,8 +26,8 @@ ASSUMPTIONS = [
     'cut-offs are kept 1e-6 A away from every site-site distance (the comparison is strict <)',
     'the attempt frequency entering the default window is read from the real TrajectoryMetrics',
 ]
-N_CASES = {'quick': 330, 'thorough': 10000}
-BUDGET_S = {'quick': 220, 'thorough': 2400}
+N_CASES = {'quick': 330, 'thorough': 25000}
+BUDGET_S = {'quick': 220, 'thorough': 3600}
 COLS = ['atom index', 'start site', 'destination site', 'start time', 'stop time']
 
 _mon = Monitor()
